@@ -56,9 +56,125 @@ def check_tables(ctx, led, v, rule="C04.tables"):
     return n
 
 
+def mandatory_vectors(ctx, v):
+    """Well-formed vectors (every field legal, no duplicate) for the mandatory phase: complete ones,
+    one mandatory metric missing each, and - where an optional metric's name or a value contains a
+    mandatory metric's name - that metric missing while the other is present (a test on the raw
+    string would be fooled)."""
+    spec = ctx.vspec(v)
+    legal = ctx.legal(v)
+    pre = spec["prefixes"][-1]
+    mand = list(spec["mandatory"])
+    opt = [k for k in spec["order"] if k not in mand]
+
+    def fld(k, i=0):
+        vals = [x for x in legal[k] if x != spec["nd"]] or list(legal[k])
+        return "%s:%s" % (k, vals[i % len(vals)])
+
+    out = []
+    full = [fld(k) for k in mand]
+    out.append((pre + "/".join(full), "valid"))
+    out.append((pre + "/".join(full + [fld(k, 1) for k in opt]), "valid"))
+    out.append((pre + "/".join(reversed(full)), "valid"))
+    for k in mand:
+        rest = [f for f in full if not f.startswith(k + ":")]
+        out.append((pre + "/".join(rest), "mandatory"))
+        out.append((pre + "/".join(rest + [fld(o) for o in opt[:2]]), "mandatory"))
+        for o in opt:
+            if k in o or any(k in x for x in legal[o]):
+                for i in range(len(legal[o])):
+                    f = "%s:%s" % (o, legal[o][i])
+                    if k in f:
+                        out.append((pre + "/".join(rest + [f]), "mandatory"))
+                        break
+        for m2 in mand:
+            if m2 != k and any(k in x for x in legal[m2]):
+                x = [x for x in legal[m2] if k in x][0]
+                out.append((pre + "/".join([f for f in rest if not f.startswith(m2 + ":")] + ["%s:%s" % (m2, x)]), "mandatory"))
+    out.append((pre + "/".join(fld(o) for o in opt[:3]), "mandatory"))
+    seen = {}
+    for s_, kind in out:
+        seen.setdefault(s_, kind)
+    return list(seen.items())
+
+
+def check_mandatory_semantics(ctx, led, v, rule="C04.mandatory.sem"):
+    """The mandatory phase interpreted on well-formed representative vectors: self.vector is the
+    string, self.metrics the dict the grammar assigns to it (that the parse phase stores exactly
+    that is C04.semantic); check_mandatory must raise CVSSnMandatoryError exactly when a mandatory
+    metric is missing.  Decides implementations the abstract presence analysis cannot follow (a
+    test on the raw string, a computed set difference)."""
+    from .interp import Dead, Inst, MapObj
+    from .interp_stmt import Evaluator
+    from .rules_parse_sem import spec_class
+    from .terms import TRUE, Space
+
+    info = VERSIONS[v]
+    cls = ctx.repo.cls(info["mod"], info["cls"])
+    if "check_mandatory" not in cls.methods:
+        raise AnalysisError("C04.anchor", "%s.check_mandatory vanished" % info["cls"], cls.node, cls.module)
+    cm = cls.methods["check_mandatory"]
+    where = cm.module.where(cm.node)
+    spec = ctx.vspec(v)
+    want_exc = "CVSS%dMandatoryError" % v
+    n = 0
+    bad = None
+    for vec, kind in mandatory_vectors(ctx, v):
+        pre = [p for p in spec["prefixes"] if p and vec.startswith(p)]
+        body = vec[len(pre[0]) :] if pre else vec
+        got = dict(f.split(":") for f in body.split("/")) if body else {}
+        ev = Evaluator(ctx, Space())
+        st = ev.new_state()
+        ref = ev.alloc(st, Inst(cls))
+        inst = st.heap[ref.id]
+        m = MapObj(False, "dict")
+        for k, x in got.items():
+            m.set(k, TRUE, Const(x))
+        inst.attrs["metrics"] = ev.alloc(st, m)
+        inst.attrs["original_metrics"] = ev.alloc(st, m.copy())
+        inst.attrs["vector"] = Const(vec)
+        if v == 3:
+            from fractions import Fraction
+
+            inst.attrs["minor_version"] = Const(int(pre[0][7]) if pre else 0)
+        try:
+            ev.run_method(st, ref, cm)
+            outcome = "passes"
+        except Dead:
+            rs = [e for e in ev.events if e.kind in ("raise", "hazard")]
+            outcome = "raises %s" % (rs[-1].data.get("exc") if rs else "?")
+        n += 1
+        ok = (outcome == "passes") if kind == "valid" else (outcome == "raises %s" % want_exc)
+        if not ok and bad is None:
+            bad = (vec, kind, outcome)
+    if bad:
+        vec, kind, outcome = bad
+        led.violation(
+            rule,
+            "%s.check_mandatory::outcome" % info["cls"],
+            where,
+            "for the %s vector %r check_mandatory %s; it must %s"
+            % ("complete" if kind == "valid" else "well-formed but incomplete", vec, outcome, "pass" if kind == "valid" else "raise %s" % want_exc),
+        )
+    else:
+        led.ok(rule, "%s.check_mandatory::outcome" % info["cls"], where, "%d well-formed representative vectors: rejected exactly when a mandatory metric is missing" % n)
+    return n
+
+
 def check_mandatory(ctx, led, v, rule="C04.mandatory"):
     """After check_mandatory the abstract state must exclude 'absent' exactly for the grammar's
-    mandatory metrics, and must not have lost any legal value."""
+    mandatory metrics, and must not have lost any legal value.  When the abstract presence
+    analysis cannot follow the implementation, the interpretation on representative vectors
+    (check_mandatory_semantics, always run) decides alone."""
+    n_sem = check_mandatory_semantics(ctx, led, v, rule + ".sem")
+    try:
+        return _check_mandatory_abstract(ctx, led, v, rule)
+    except AnalysisError as e:
+        led.info(rule, "CVSS%d.check_mandatory" % v, "cvss/", "abstract presence analysis not applicable (%s): decided on %d representative vectors" % (e.message, n_sem))
+        return n_sem
+
+
+def _check_mandatory_abstract(ctx, led, v, rule="C04.mandatory"):
     om = get_model(ctx, v)
     spec = ctx.vspec(v)
     cm = ctx.repo.method(om.modname, om.clsname, "check_mandatory")
